@@ -397,6 +397,15 @@ U_C04_Lone(zz) ==
                  C1 |-> Sub1], {0, 1, 2}, 4, {0}) :
              f \in {DataF("d", SzConst(0)), DataF("d", SzConst(1)), RepCountF("d", U1("e"), SzConst(0), NoCond, 0),
                     DataF("d", SzMarker(<<0>>, FALSE, TRUE)), DataF("d", SzRegex("Ystar", TRUE, TRUE)), RefF("d", "C1")}}
+    \* a field placed (by an earlier field) where the input ends in the middle of it, FOLLOWED by a field placed back inside
+    \* the input: the parse position at the end is inside the input although a value was cut short
+    \cup {DeclP([C0 |-> Class(DefaultOpts, <<U1("t"), MvField(f, [kind |-> "at", arg |-> SzField("t"), ref |-> "innermost-pkt"]),
+                                             MvField(DataF("l", SzConst(2)), [kind |-> "at", arg |-> SzConst(1), ref |-> "innermost-pkt"])>>)],
+                {0, 2, 3, 4}, 5, {0, 1}) :
+             f \in {IntF("c", 3, FALSE, "default"), IntF("c", 2, TRUE, "little"), DataF("c", SzConst(3)), U1("c")}}
+    \cup {DeclP([C0 |-> Class(DefaultOpts, <<U1("t"), MvField(BitsF("h", 4), [kind |-> "at", arg |-> SzField("t"), ref |-> "innermost-pkt"]), BitsF("m", 12), BitsF("l", 8),
+                                             MvField(U1("z"), [kind |-> "at", arg |-> SzConst(0), ref |-> "innermost-pkt"])>>)],
+                {1, 2, 3, 255}, 5, {0}) }
 
 \* -------------------------------------------------------------------- C01 / C14
 \* mixed declarations; C01 leaves out what the property excludes (non-kept regex delimiters other
